@@ -66,7 +66,7 @@ _PALM = ("requires nb_meta_channels < 4, nb_colours <= 70911, nb_deltas <= 66816
          "(begin_c < nb_meta <= endc), and all of begin_c..=endc have the size of channel begin_c (code compares sizes only; libjxl's "
          "CheckEqualChannels additionally compares shifts -- reported); Err is InvalidPaletteParams; on Ok: list = [nb_colours x num_c, "
          "shift -1] ++ old list without begin_c+1..=endc; nb_meta_channels += 1, or += 2 - num_c inside the meta channels; nb_meta < #channels")
-for _h, _what in (("b0", "(begin_c, num_c) = (0, 1), (0, 2), (0, 3), (0, 4)"), ("b123", "(1, 1), (1, 3), (2, 2), (3, 1)"),
+for _h, _what in (("b0a", "(begin_c, num_c) = (0, 1), (0, 2)"), ("b0b", "(0, 3), (0, 4)"), ("b1", "(1, 1), (1, 3)"), ("b23", "(2, 2), (3, 1)"),
                   ("range", "out-of-range (0, 5), (3, 2), (4, 1)")):
     _MT("mt.palette_meta_" + _h, ["C03", "C01"], MT_T, MT_TM, "palette_meta_" + _h,
         "bounded:channel list of 4, %s; sizes / shifts / nb_meta_channels / nb_colours / nb_deltas symbolic" % _what,
@@ -88,22 +88,25 @@ _PV = ("requires: palette grid nb_colours x num_c, num_c target grids of one siz
        "0 <= index < nb_colours: palette(index, c); nb_colours <= index < nb_colours+64: ((index-nb_colours) >> 2c) % 4 * (2^bitdepth - 1) / 4 "
        "+ (1 << max(0, bitdepth-3)); index >= nb_colours+64: ((index-nb_colours-64) / 5^c) % 5 * (2^bitdepth - 1) / 4; 0 for c >= 3 in every "
        "implicit case; no panic. ")
-for _h, _geo, _what in (
-        ("rgb_explicit", "num_c 3, nb_colours 2, 2 pixels", "one pixel explicit (both explicit = fast path inverse_simple), the other any"),
-        ("rgb_delta", "num_c 3, nb_colours 2, 2 pixels", "one pixel a delta entry (index < 0), the other any"),
-        ("rgb_small_cube", "num_c 3, nb_colours 2, 2 pixels", "one pixel in the 4x4x4 cube, the other any"),
-        ("rgb_large_cube", "num_c 3, nb_colours 2, 2 pixels", "one pixel in the 5x5x5 cube (incl. index up to i32::MAX), the other any"),
-        ("rgb_nbc0", "num_c 3, nb_colours 0 (zero-width palette grid), 1 pixel", "any index"),
-        ("gray", "num_c 1, nb_colours 3, 2 pixels", "any indices"),
-        ("extra_explicit", "num_c 5, nb_colours 2, 1 pixel", "explicit entry, channels c = 3, 4"),
-        ("extra_delta", "num_c 5, nb_colours 2, 1 pixel", "delta entry, channels c = 3, 4 (0)"),
-        ("extra_small_cube", "num_c 5, nb_colours 2, 1 pixel", "4x4x4 cube entry, channels c = 3, 4 (libjxl: 0)"),
-        ("extra_large_cube", "num_c 5, nb_colours 2, 1 pixel", "5x5x5 cube entry, channels c = 3, 4 (libjxl: 0)")):
+for _h, _geo, _what, _tier in (
+        ("rgb_explicit", "num_c 3, nb_colours 2, 2 pixels", "both pixels explicit: the fast path inverse_simple", "quick"),
+        ("rgb_mixed", "num_c 2, nb_colours 2, 2 pixels", "pixel 0 explicit, pixel 1 in the 4x4x4 cube: explicit entries on the slow path", "quick"),
+        ("rgb_delta", "num_c 3, nb_colours 2, 1 pixel", "delta entries, -65536 <= index < 0", "quick"),
+        ("rgb_delta_full", "num_c 3, nb_colours 2, 1 pixel", "delta entries, every negative index", "thorough"),
+        ("rgb_small_cube", "num_c 3, nb_colours 2, 1 pixel", "every index of the 4x4x4 cube", "quick"),
+        ("rgb_large_cube", "num_c 3, nb_colours 2, 1 pixel", "every index of the 5x5x5 cube (up to i32::MAX)", "quick"),
+        ("rgb_nbc0_small", "num_c 3, nb_colours 0 (zero-width palette grid), 1 pixel", "4x4x4 cube", "quick"),
+        ("rgb_nbc0_large", "num_c 3, nb_colours 0 (zero-width palette grid), 1 pixel", "5x5x5 cube", "quick"),
+        ("gray", "num_c 1, nb_colours 3, 1 pixel", "any index", "quick"),
+        ("extra_explicit", "num_c 5, nb_colours 2, 1 pixel", "explicit entry, channels c = 3, 4", "quick"),
+        ("extra_delta", "num_c 5, nb_colours 2, 1 pixel", "delta entry, channels c = 3, 4 (0)", "quick"),
+        ("extra_small_cube", "num_c 5, nb_colours 2, 1 pixel", "4x4x4 cube entry, channels c = 3, 4 (libjxl: 0)", "quick"),
+        ("extra_large_cube", "num_c 5, nb_colours 2, 1 pixel", "5x5x5 cube entry, channels c = 3, 4 (libjxl: 0)", "quick")):
     K("mt.pal_value_" + _h, ["C03", "C01"], "jxl-modular", MT_P, MT_PM, "pal_value_" + _h,
-      "bounded:%s; complete over sample / index values and bit depth 1..=24; %s" % (_geo, _what),
-      ["Palette::inverse_inner", "inverse_simple"], _PV, timeout=300)
+      "bounded:%s; complete over sample values and bit depth 1..=24; %s" % (_geo, _what),
+      ["Palette::inverse_inner", "inverse_simple"], _PV, tier=_tier, timeout=300 if _tier == "quick" else 1200)
 K("mt.pal_value_hibd_delta", ["C03", "C01"], "jxl-modular", MT_P, MT_PM, "pal_value_hibd_delta",
-  "bounded:num_c 3, nb_colours 1, 1 pixel; bit depth 25..=32, every negative index", ["Palette::inverse_inner"],
+  "bounded:num_c 3, nb_colours 1, 1 pixel; bit depth 25..=32, -65536 <= index < 0", ["Palette::inverse_inner"],
   "delta entries above 24 bit are scaled by 1 << 16 (bit depth clamped to 24; libjxl and the standard's pseudo-code agree)")
 K("mt.pal_value_hibd_explicit", ["C03", "C01"], "jxl-modular", MT_P, MT_PM, "pal_value_hibd_explicit",
   "bounded:num_c 3, nb_colours 1, 1 pixel; bit depth 25..=32", ["Palette::inverse_inner", "inverse_simple"],
@@ -121,11 +124,45 @@ K("mt.pal_total_hibd", ["C01", "C03"], "jxl-modular", MT_P, MT_PM, "pal_total_hi
 K("mt.pal_total_many_channels", ["C01", "C03"], "jxl-modular", MT_P, MT_PM, "pal_total_many_channels",
   "bounded:num_c 17 (parser allows 8192), nb_colours 0, 1 pixel; bit depth 1..=24, every index", ["Palette::inverse_inner"],
   "no panic for palettes of more than 16 channels (shift amount 2*c)")
-_PD = ("2x2 image, nb_colours 1, 8 bit, nb_deltas any parser value, indices any i32: every output sample == GetPaletteValue + (index < nb_deltas "
+_PD = ("nb_colours 1, 8 bit, nb_deltas any parser value, indices any i32: every output sample == GetPaletteValue + (index < nb_deltas "
        "? prediction of d_pred from the reconstructed output samples W, N, NW with the H.3 edge rules : 0), wrapped to 32 bits; samples with "
-       "index >= nb_deltas get no prediction; negative indices always do. The predictors' own arithmetic is md.pred_arith_*; "
-       "d_pred = SelfCorrecting (weighted) is NOT covered")
-for _h, _nc in (("west", 2), ("north", 2), ("gradient", 2), ("avg", 1), ("select", 1)):
+       "index >= nb_deltas get no prediction; negative indices and explicit indices below nb_deltas always do. The predictors' own "
+       "arithmetic is md.pred_arith_*; d_pred = SelfCorrecting (weighted) is NOT covered")
+for _h, _geo, _tier in (("west_2x1_small", "image 2x1, num_c 1, |index| <= 255", "quick"),
+                        ("north_1x2_small", "image 1x2, num_c 1, |index| <= 255", "quick"),
+                        ("west_2x1", "image 2x1, num_c 1, every i32 index", "thorough"),
+                        ("north_1x2", "image 1x2, num_c 1, every i32 index", "thorough"),
+                        ("west_2x1_2ch", "image 2x1, num_c 2 (predictor state restarts per channel), |index| <= 255", "thorough"),
+                        ("avg_2x1", "image 2x1, num_c 1, every i32 index", "thorough"),
+                        ("gradient_2x2", "image 2x2, num_c 1, |index| <= 255", "thorough"),
+                        ("select_2x2", "image 2x2, num_c 1, |index| <= 255", "thorough")):
     K("mt.pal_delta_pred_" + _h, ["C03", "C01"], "jxl-modular", MT_P, MT_PM, "pal_delta_pred_" + _h,
-      "bounded:image 2x2, num_c %d, nb_colours 1, bit depth 8; complete over indices / palette values / nb_deltas" % _nc,
-      ["Palette::inverse_inner", "PredictorState::properties", "Predictor::predict", "Properties::record"], _PD, timeout=300)
+      "bounded:%s, nb_colours 1, bit depth 8; at least one index is NOT an explicit entry (slow path); complete over "
+      "palette values / nb_deltas" % _geo,
+      ["Palette::inverse_inner", "PredictorState::properties", "Predictor::predict", "Properties::record"], _PD,
+      tier=_tier, timeout=300 if _tier == "quick" else 1200)
+for _h, _geo in (("west_2x1", "image 2x1"), ("north_1x2", "image 1x2")):
+    K("mt.pal_delta_all_explicit_" + _h, ["C03", "C01"], "jxl-modular", MT_P, MT_PM, "pal_delta_all_explicit_" + _h,
+      "bounded:%s, num_c 1, nb_colours 1, bit depth 8; EVERY index is an explicit entry (the code's fast path inverse_simple); complete "
+      "over palette values / nb_deltas" % _geo, ["Palette::inverse_inner", "inverse_simple"],
+      _PD + ". Same postcondition as mt.pal_delta_pred_*, on the other half of the input space: explicit entries below nb_deltas are "
+      "delta entries too (libjxl takes its fast path only if nb_deltas == 0 && predictor == Zero)")
+
+# ---- transform.rs: what the bundle parsers accept (ranges assumed by the rows above) ------------------
+_MT("mt.parse_rct", ["C03", "C01"], MT_T, MT_TM, "parse_rct_ranges", "bounded:8 symbolic bytes (longest form 23 bits)", ["<Rct as Bundle>::parse"],
+    "every bit pattern parses; begin_c <= 9287, rct_type <= 73 -- NO rejection of rct_type >= 42 (cover shows they are accepted; libjxl rejects them; "
+    "Rct::inverse then uses permutation = rct_type / 7 >= 6 as the identity permutation)")
+_MT("mt.parse_squeeze_params", ["C03", "C01"], MT_T, MT_TM, "parse_squeeze_params_ranges", "bounded:8 symbolic bytes (longest form 23 bits)",
+    ["<SqueezeParams as Bundle>::parse"], "every bit pattern parses; begin_c <= 9287, 1 <= num_c <= 19")
+_MT("mt.parse_palette", ["C03", "C01"], MT_T, MT_TM, "parse_palette_ranges", "bounded:12 symbolic bytes (longest form 70 bits)",
+    ["<Palette as Bundle>::parse"],
+    "Ok: begin_c <= 9287, 1 <= num_c <= 8192, nb_colours <= 70911, nb_deltas <= 66816, d_pred one of the 14 predictors, wp_header kept iff "
+    "d_pred = SelfCorrecting; Err only as Error::Bitstream (d_pred = 14, 15). No relation between nb_deltas and nb_colours is enforced")
+
+# Quick-tier budget: the mt.* rows serve C03 first; under C01 (no panic) they add nothing the two totality rows and the parser rows
+# do not already say for the quick tier, so only those run in `./check C01 --tier quick` (all of them run in the thorough tier).
+for _o in OBLIGATIONS:
+    if _o["id"].startswith("mt.") and "C01" in _o["props"] and _o["id"] not in (
+            "mt.pal_total_hibd", "mt.pal_total_many_channels", "mt.parse_rct", "mt.parse_squeeze_params", "mt.parse_palette",
+            "mt.sq_default_params_count", "mt.pal_value_gray"):
+        _o["quick_props"] = ["C03"]
